@@ -4,6 +4,7 @@ import (
 	"bytes"
 	"context"
 	"math"
+	"sync"
 	"time"
 
 	"github.com/pkg/errors"
@@ -27,6 +28,8 @@ type TempPool struct {
 	cleanRemovedNewOperationsDeep     int
 	cleanRemovedProposalDeep          int
 	cleanRemovedBallotDeep            int
+	setproposallock                   sync.Mutex
+	setballotlock                     sync.Mutex
 }
 
 func NewTempPool(
@@ -171,6 +174,10 @@ func (db *TempPool) SetProposal(pr base.ProposalSignFact) (bool, error) {
 	}
 
 	key := leveldbProposalKey(pr.Fact().Hash())
+
+	// NOTE checking and writing should not be interleaved with another SetProposal
+	db.setproposallock.Lock()
+	defer db.setproposallock.Unlock()
 
 	switch found, err := pst.Exists(key); {
 	case err != nil:
@@ -791,6 +798,10 @@ func (db *TempPool) SetBallot(bl base.Ballot) (bool, error) {
 	}
 
 	key := leveldbBallotKey(bl.Point(), isaac.IsSuffrageConfirmBallotFact(bl.SignFact().Fact()))
+
+	// NOTE checking and writing should not be interleaved with another SetBallot
+	db.setballotlock.Lock()
+	defer db.setballotlock.Unlock()
 
 	var blb []byte
 
